@@ -1004,5 +1004,37 @@ pub fn run_chaos(prop: &'static str, cfg: ChaosCfg, seed: u64) -> ChaosOut {
     }
 }
 
+/// Objects that outlive every pool handle: use them, take one, drop the other.
+pub fn outlive_scenario() -> (bool, String) {
+    let sh = Sh::new("C06", isize::MAX, false, 0);
+    let pool = build(&sh, 2);
+    let a = match get_nb(&pool) {
+        Ok(o) => o,
+        Err(e) => return (false, format!("get failed: {:?}", e)),
+    };
+    let b = match get_nb(&pool) {
+        Ok(o) => o,
+        Err(e) => return (false, format!("get failed: {:?}", e)),
+    };
+    drop(pool);
+    let ida = a.id;
+    let r = catch_unwind(AssertUnwindSafe(move || {
+        let inner = Object::take(a);
+        let same = inner.id == ida;
+        drop(inner);
+        drop(b);
+        same
+    }));
+    match r {
+        Ok(true) => {
+            let c = sh.constructed.load(Ordering::SeqCst);
+            let d = sh.destructed.load(Ordering::SeqCst);
+            (c == d, format!("constructed {} destructed {}", c, d))
+        }
+        Ok(false) => (false, "take returned another value".into()),
+        Err(p) => (false, format!("using objects after the pool was dropped panicked: {}", panic_message(&*p))),
+    }
+}
+
 #[allow(dead_code)]
 pub fn unused(_: Rng) {}
